@@ -1,5 +1,6 @@
 import IpamVerif.NoRewrite
 import IpamVerif.Tight
+import IpamVerif.Restart
 /-!
 # C08 — pod CIDRs of a node are never changed; re-syncing a node is a no-op
 
@@ -34,5 +35,13 @@ theorem resync_reserves_nothing (s : Sys) (h : Inv s) (n : NodeObj) (hn : n ∈ 
   · rw [if_neg (by simp [hjunk])]
     exact ⟨(occupyNode_grow n.name n.cidrs i₀ hc0 _ s.alloc h.wf h.rd hcl hu).1,
       occupyNode_same n.name n.cidrs i₀ hc0 _ s.alloc h.wf h.rd hcl hu⟩
+
+/-- ... in every state a history of the fragment with restarts can reach — in particular the first re-sync of every
+listed node after a restart (start-up queues them all) reserves nothing and associates nobody anew -/
+theorem resync_reserves_nothing_after_any_history_with_restarts (s0 : Sys) (h0 : Restart.Inv3 s0) (evs : List Ev)
+    (hf : Restart.Frag3All s0 evs) (n : NodeObj) (hn : n ∈ (run s0 evs).nodeView) (hnd : n.deleting = false)
+    (hc : n.hasCidrs = true) (refresh : Bool) (ws : List WOut) :
+    AllocEqv (run s0 evs).alloc (allocateOrOccupy (run s0 evs) n refresh ws).1.alloc :=
+  resync_reserves_nothing _ (Restart.inv3_run evs s0 h0 hf).inv n hn hnd hc refresh ws
 
 end Ipam.C08
